@@ -151,6 +151,17 @@ func init() {
 			return
 		}
 		c.Clauses = append(c.Clauses, "C03.sample: the uniform samplers (scalar and four-way) store a 12-bit candidate equal to q-1 and do not store one equal to q (boundary of the rejection test, decided by constant propagation)")
+		// every way of obtaining a public key object (Public(), key generation) yields one whose cached H(ek) is set
+		for _, n := range []string{"512", "768", "1024"} {
+			for _, fam := range []string{"kem/mlkem/mlkem", "kem/kyber/kyber"} {
+				c.ctorRule(p, "C03.keycheck", fam+n, "PublicKey", "EncapsulateTo")
+				c.ctorRule(p, "C03.keycheck", fam+n, "PrivateKey", "DecapsulateTo")
+			}
+		}
+		// the portable normalisation subtracts q conditionally from the Barrett-reduced value (in that order:
+		// Barrett reduction leaves a value in [0, q], the conditional subtraction maps q to 0)
+		c.callArgRule(p, "C03.sample", "normalizeGeneric applies csubq to the Barrett-reduced coefficient", p.Func("pke/kyber/internal/common", "Poly", "normalizeGeneric"),
+			"pke/kyber/internal/common.csubq", "", map[int]string{0: `call:pke/kyber/internal/common\.barrettReduce.*`})
 		pk := "pke/kyber/internal/common"
 		f := p.Func(pk, "Poly", "DeriveUniform")
 		cand := func(v int64) []ValAssume {
